@@ -12,15 +12,10 @@
 // See the License for the specific language governing permissions and
 // limitations under the License.
 
-use super::{separator, AttrBody, EventOrEnd, IncrementalReconParser, ItemsKind, RecBody, Span};
+use super::{AttrBody, EventOrEnd, IncrementalReconParser, ItemsKind, RecBody, Span};
 use crate::hasher::HashError;
-use nom::branch::alt;
-use nom::bytes::complete::is_not;
-use nom::character::streaming as char_str;
-use nom::combinator::{map, opt};
 use nom::error::ErrorKind;
-use nom::sequence::preceded;
-use nom::{Finish, IResult, Parser};
+use nom::{Finish, Parser};
 use smallvec::SmallVec;
 use std::hash::{Hash, Hasher};
 use swimos_form::read::ReadEvent;
@@ -122,70 +117,67 @@ impl Default for HashParser {
     }
 }
 
-/// State showing the validation progress of whether the
-/// current attribute body is an implicit record or not.
-#[derive(Debug, Clone, Copy)]
-enum ValidationState {
-    /// Validation is still in progress and we are at the
-    /// top level in the body of an attribute.
-    Top,
-    /// Validation is still in progress and we are
-    /// N levels deep inside nested records or attributes.
-    Nested(usize),
-    /// Validation completed with a result.
-    Done(bool),
-}
-
-impl ValidationState {
-    fn increment(level: usize) -> ValidationState {
-        ValidationState::Nested(level + 1)
-    }
-
-    fn decrement(level: usize) -> ValidationState {
-        if level == 1 {
-            ValidationState::Top
-        } else {
-            ValidationState::Nested(level - 1)
-        }
-    }
-
-    fn finish(result: bool) -> ValidationState {
-        ValidationState::Done(result)
-    }
-}
-
+/// Determine, by looking ahead in the text that follows the opening of an attribute body, whether
+/// the body is an implicit record (it holds more than one item or a slot) or a single value.
+/// String literals are skipped as a whole (a separator inside quotes is not a separator) and a
+/// line break between two items separates them just as a comma does.
 fn is_implicit_record(input: Span) -> bool {
-    let mut result: IResult<Span<'_>, ValidationState> = Ok((input, ValidationState::Top));
-
-    loop {
-        result = match result {
-            Ok((rest, ValidationState::Top)) => preceded(
-                opt(is_not(",;:{()")),
-                alt((
-                    map(separator, |_| ValidationState::finish(true)),
-                    map(char_str::char(':'), |_| ValidationState::finish(true)),
-                    map(char_str::char('{'), |_| ValidationState::increment(0)),
-                    map(char_str::char('('), |_| ValidationState::increment(0)),
-                    map(char_str::char(AttrBody::end_delim()), |_| {
-                        ValidationState::finish(false)
-                    }),
-                )),
-            )(rest),
-            Ok((rest, ValidationState::Nested(level))) => preceded(
-                opt(is_not("{()}")),
-                alt((
-                    map(char_str::char('{'), |_| ValidationState::increment(level)),
-                    map(char_str::char('('), |_| ValidationState::increment(level)),
-                    map(char_str::char(AttrBody::end_delim()), |_| {
-                        ValidationState::decrement(level)
-                    }),
-                    map(char_str::char(RecBody::end_delim()), |_| {
-                        ValidationState::decrement(level)
-                    }),
-                )),
-            )(rest),
-            Ok((_, ValidationState::Done(result))) => return result,
-            Err(_) => return false,
+    let mut chars = input.fragment().chars();
+    let mut depth: usize = 0;
+    let mut seen_content = false;
+    let mut line_break_after_content = false;
+    while let Some(c) = chars.next() {
+        if c == '"' {
+            // Skip the string literal.
+            loop {
+                match chars.next() {
+                    Some('\\') => {
+                        chars.next();
+                    }
+                    Some('"') => break,
+                    Some(_) => {}
+                    None => return false,
+                }
+            }
+            if depth == 0 {
+                if line_break_after_content {
+                    return true;
+                }
+                seen_content = true;
+            }
+            continue;
+        }
+        if depth == 0 {
+            match c {
+                ',' | ';' | ':' => return true,
+                '{' | '(' => {
+                    if line_break_after_content {
+                        return true;
+                    }
+                    seen_content = true;
+                    depth = 1;
+                }
+                c if c == AttrBody::end_delim() => return false,
+                '\n' | '\r' => {
+                    if seen_content {
+                        line_break_after_content = true;
+                    }
+                }
+                c if c.is_whitespace() => {}
+                _ => {
+                    if line_break_after_content {
+                        return true;
+                    }
+                    seen_content = true;
+                }
+            }
+        } else {
+            match c {
+                '{' | '(' => depth += 1,
+                c if c == AttrBody::end_delim() || c == RecBody::end_delim() => depth -= 1,
+                _ => {}
+            }
         }
     }
+    false
 }
